@@ -156,7 +156,7 @@ def zero(V):
 
 
 def mk_node(V, rec, name, rate, phase=0, advance=False, scheduling=None, clock=None, eps=0, record_setting=None, max_records=20000,
-            real_time_factor=0, init_seq=0):
+            real_time_factor=0, init_seq=0, gs_eps=None):
     from rex import base
     from rex.asynchronous import _AsyncNodeWrapper
     from rex.constants import Async, Clock
@@ -199,7 +199,7 @@ def mk_node(V, rec, name, rate, phase=0, advance=False, scheduling=None, clock=N
     w.q_rng_step = deque()
     w.q_sample = deque()
     w._i = 0
-    w._step_state = base.StepState(rng=("rng", name), state=("state", name, "init"), params=("params", name), inputs={}, eps=eps, seq=SeqD(init_seq), ts=zero(V))  # _reset takes the step state of the graph state it is handed: its seq need not be 0
+    w._step_state = base.StepState(rng=("rng", name), state=("state", name, "init"), params=("params", name), inputs={}, eps=SeqD(eps if gs_eps is None else gs_eps), seq=SeqD(init_seq), ts=zero(V))  # _reset takes the step state of the graph state it is handed: its seq need not be 0
     w._submit = rec.submit_for(w)
     return w
 
